@@ -34,6 +34,13 @@ static void slab(int32 sds, int wr, const int32 *st, const int32 *sd, const int3
     r = wr ? SDwritedata(sds, start, USESTRIDE ? stride : NULL, count, buf) : SDreaddata(sds, start, USESTRIDE ? stride : NULL, count, buf);
     if (!expect_ok) {
         H4V_ASSERT(r == FAIL, "C03.S1.range: a request reaching outside the extent was accepted");
+        if (wr) /* a refused write may have touched cells INSIDE the requested region (the property allows that): forget them */
+            for (k = 0; k < n; k++) {
+                int t = k, c[3], inb = 1;
+                for (i = RANK - 1; i >= 0; i--) { idx[i] = t % ct[i]; t /= ct[i]; }
+                for (i = 0; i < RANK; i++) { c[i] = st[i] + idx[i] * (USESTRIDE ? sd[i] : 1); if (c[i] >= (i == 0 ? (UNLIM ? grow0 : D0) : DIMS[i])) inb = 0; }
+                if (inb) Gdef[cell(c)] = 2;
+            }
         return;
     }
     if (wr) H4V_ASSERT(r == SUCCEED, "C03.S1.write: an in-range SDwritedata failed");
@@ -48,10 +55,10 @@ static void slab(int32 sds, int wr, const int32 *st, const int32 *sd, const int3
             if (UNLIM && c[0] + 1 > grow0) grow0 = c[0] + 1;
         }
         else {
-            if (Gdef[cell(c)])
+            if (Gdef[cell(c)] == 1)
                 for (b = 0; b < ES; b++) H4V_ASSERT(buf[k * ES + b] == G[cell(c)][b], "C03.S1.value: cell read differs from the value last written");
 #if FILLMODE && USERFILL
-            else
+            else if (Gdef[cell(c)] == 0)
                 for (b = 0; b < ES; b++) H4V_ASSERT(buf[k * ES + b] == fillv[b], "C03.S1.fill: never-written cell does not hold the fill value");
 #endif
         }
@@ -91,6 +98,17 @@ void harness(void)
     H4V_ASSERT(SDgetinfo(sds, nm, &rk, dims, &nt, &na) == SUCCEED, "C03.S1.getinfo");
     H4V_ASSERT(rk == RANK && nt == NT, "C03.S1.getinfo.values");
     if (UNLIM) H4V_ASSERT(dims[0] == grow0, "C03.S1.numrecs: extent of the unlimited dimension differs from the records written");
+#if REOPEN
+    /* persistence: close the file and read the same selection in a new session */
+    H4V_ASSERT(SDendaccess(sds) == SUCCEED && SDend(sd) == SUCCEED, "C03.S1.end");
+    sd = SDstart("t.hdf", DFACC_READ);
+    H4V_ASSERT(sd != FAIL, "C03.S1.restart");
+    H4V_ASSERT(SDnametoindex(sd, "v") == 0, "C03.S1.nametoindex");
+    sds = SDselect(sd, 0);
+    H4V_ASSERT(sds != FAIL, "C03.S1.select");
+    H4V_ASSERT(SDgetinfo(sds, nm, &rk, dims, &nt, &na) == SUCCEED && rk == RANK && nt == NT, "C03.S1.getinfo2: rank/type differ after reopen");
+    for (i = 0; i < RANK; i++) H4V_ASSERT(dims[i] == (i == 0 && UNLIM ? grow0 : DIMS[i]), "C03.S1.shape2: shape differs after reopen");
+#endif
     slab(sds, 0, R1S, R1T, R1C, NULL, 1);
 #if BAD
     /* a request reaching outside the extent: refused, and nothing changes */
